@@ -68,6 +68,8 @@ pub fn run_c06(a: &Args) {
     for n in 0..a.cases {
         let mut plan = gen_plan(&mut rng);
         if n % 7 == 0 { plan.intent = 1; }
+        // unknown next-state ordinals around the legal range and at the VarInt byte boundaries
+        if n % 13 == 5 { plan.intent = [0, 4, 5, -1, 127, 128, 255, i32::MAX, i32::MIN][(n / 13) % 9]; }
         let secret = if rng.chance(2, 3) { Some(b"secret".to_vec()) } else { None };
         plan.session_cookie = session_cookie_payload(&mut rng, &plan.host, plan.port);
         plan.routing = routing_steps(&mut rng);
@@ -112,7 +114,8 @@ pub fn run_c06(a: &Args) {
 pub fn run_c01(a: &Args) {
     let mut rng = Rng::new(a.seed);
     let mut cases = vec![];
-    let kinds = [EncKind::Honest, EncKind::Honest, EncKind::Honest, EncKind::WrongToken, EncKind::StaleToken, EncKind::OtherKey, EncKind::Garbage, EncKind::GarbageToken, EncKind::SecretLen(0), EncKind::SecretLen(15), EncKind::SecretLen(17), EncKind::SecretLen(32)];
+    let kinds = [EncKind::Honest, EncKind::Honest, EncKind::Honest, EncKind::WrongToken, EncKind::StaleToken, EncKind::OtherKey, EncKind::Garbage, EncKind::GarbageToken, EncKind::SecretLen(0), EncKind::SecretLen(15), EncKind::SecretLen(17), EncKind::SecretLen(32),
+        EncKind::TokenPrefix(0), EncKind::TokenPrefix(1), EncKind::TokenPrefix(16), EncKind::TokenPrefix(31), EncKind::TokenPrefix(33)];
     for n in 0..a.cases {
         let mut plan = gen_plan(&mut rng);
         plan.intent = [2, 3, 3, 1][n % 4];
@@ -124,10 +127,17 @@ pub fn run_c01(a: &Args) {
         let v0 = Verdicts0::get(&mut rng, &plan);
         let mut sc = scenario(&mut rng, &plan, secret.clone(), vec![], v0);
         // half of the transfer connections present a valid cookie for ANOTHER identity than the claim
-        if plan.intent == 3 && rng.chance(1, 2) {
+        // ... or one that is correctly signed but expired / bound to another address / signed with another secret
+        if plan.intent == 3 && rng.chance(2, 3) {
             if let Some(s) = &secret {
-                let j = cookie_json(now(), &sc.client_addr.to_string(), "CookieName", 0xc00c1e, None, serde_json::json!([]));
-                plan.auth_cookie = Some(oracle::sign(s, &j));
+                let (ts, addr, key): (u64, String, Vec<u8>) = match rng.below(6) {
+                    0 | 1 | 2 => (now(), sc.client_addr.to_string(), s.clone()),
+                    3 => (now() - 21_600 - 120, sc.client_addr.to_string(), s.clone()),
+                    4 => (now(), "203.0.113.77:4000".to_string(), s.clone()),
+                    _ => (now(), sc.client_addr.to_string(), b"not the configured secret".to_vec()),
+                };
+                let j = cookie_json(ts, &addr, "CookieName", 0xc00c1e, None, serde_json::json!([]));
+                plan.auth_cookie = Some(oracle::sign(&key, &j));
             }
         }
         sc.steps = render(&plan, secret.is_some());
@@ -163,13 +173,16 @@ pub fn run_c02(a: &Args) {
         sc.expiry = *rng.pick(&[0u64, 1, 60, 21600, u64::MAX - 5, u64::MAX]);
         let t = now();
         let key = secret.clone().unwrap_or_else(|| b"k".to_vec());
-        let age = *rng.pick(&[0u64, 0, 0, 1, 59, 60, 61, 21599, 21600, 21601, 1_000_000]);
-        let ts = match rng.below(8) { 0 => t.saturating_sub(sc.expiry.min(t)), 1 => t.saturating_sub(sc.expiry.min(t)).saturating_sub(1), 2 => t + 100, _ => t.saturating_sub(age) };
-        let ip_same = !rng.chance(1, 5);
+        // tampering is only informative on a cookie that would otherwise be accepted
+        let tamper = matches!(n % 16, 2 | 3 | 4 | 5 | 8 | 9 | 11 | 12 | 13 | 14 | 15);
+        if tamper && rng.chance(4, 5) { sc.expiry = 21600; }
+        let age = if tamper && sc.expiry == 21600 { 0 } else { *rng.pick(&[0u64, 0, 0, 1, 59, 60, 61, 21599, 21600, 21601, 1_000_000]) };
+        let ts = if tamper && sc.expiry == 21600 { t } else { match rng.below(8) { 0 => t.saturating_sub(sc.expiry.min(t)), 1 => t.saturating_sub(sc.expiry.min(t)).saturating_sub(1), 2 => t + 100, _ => t.saturating_sub(age) } };
+        let ip_same = (tamper && sc.expiry == 21600) || !rng.chance(1, 5);
         let addr = if ip_same { format!("{}", std::net::SocketAddr::new(sc.client_addr.ip(), 9)) } else { rng.pick(&["10.9.9.9:1", "[2001:db8::99]:2", "127.0.0.2:25564"]).to_string() };
         let props = if rng.chance(1, 2) { serde_json::json!([]) } else { serde_json::json!([{"name": "textures", "value": "dg==", "signature": null}]) };
         let valid = oracle::sign(&key, &cookie_json(ts, &addr, "CookieName", 0xc00c1e + u128::from(rng.below(2)), Some("srv-0"), props));
-        let (class, payload): (&str, Option<Vec<u8>>) = match n % 12 {
+        let (class, payload): (&str, Option<Vec<u8>>) = match n % 16 {
             0 => ("absent", None),
             1 => ("empty", Some(vec![])),
             2 => { let k = rng.below(valid.len() as u64) as usize; ("truncated", Some(valid[..k].to_vec())) }
@@ -180,6 +193,12 @@ pub fn run_c02(a: &Args) {
             7 => ("wrong-shape", Some(oracle::sign(&key, br#"{"timestamp": 1, "user_name": "x"}"#))),
             8 => ("length-31", Some(valid[..31].to_vec())),
             9 => ("length-32", Some(valid[..32].to_vec())),
+            // alterations a weakened comparison (checksum-like fold, prefix/suffix-only, order-insensitive) would accept
+            11 => { let (i, j, b) = (rng.below(32) as usize, rng.below(31) as usize, rng.below(8)); let j = if j >= i { j + 1 } else { j }; let mut v = valid.clone(); v[i] ^= 1 << b; v[j] ^= 1 << b; ("tag-same-bit-in-two-bytes", Some(v)) }
+            12 => { let mut v = valid.clone(); let i = rng.below(31) as usize; let j = (i + 1..32).find(|j| v[*j] != v[i]).unwrap_or(31); v.swap(i, j); ("tag-bytes-swapped", Some(v)) }
+            13 => { let mut v = valid.clone(); let i = *rng.pick(&[0usize, 15, 16, 31]); v[i] = v[i].wrapping_add(1 + rng.below(254) as u8); ("tag-one-byte", Some(v)) }
+            14 => { let mut v = valid.clone(); for b in v.iter_mut().take(32) { *b = 0; } ("tag-zeroed", Some(v)) }
+            15 => { let mut v = valid.clone(); v.insert(32, b' '); ("byte-inserted-after-tag", Some(v)) }
             _ => ("as-generated", Some(valid.clone())),
         };
         plan.auth_cookie = payload;
